@@ -49,7 +49,7 @@ def required_cells(tier):
             "mode:none": 1, "mode:multithread": 1, "mode:multiprocess": 1,
             "schedule:threads": 6, "orders_observed_threads": 6,
             "env:pttempo": 2, "env:ancilla": 3, "order:1": 3, "order:2": 3,
-            "subset:noncontiguous": 3}
+            "subset:noncontiguous": 3, "state-query-between-computes": 4}
 
 
 def cases(tier, seed):
@@ -226,7 +226,22 @@ def run_physics(case):
     params = oqupy.PtTebdParameters(dt=dt, epsrel=teps, order=order)
     tebd = oqupy.PtTebd(oqupy.AugmentedMPS(rhos), sys_chain, pts, params,
                         dynamics_sites=record, start_time=0.25)
+    if i % 2:
+        # split computation with state queries in between (they must not
+        # influence what is recorded afterwards)
+        kmid = max(1, nsteps // 2)
+        tebd.compute(kmid, progress_type="silent")
+        mid0 = tebd.get_current_density_matrix(0)
+        tebd.get_current_density_matrix((0, n - 1) if n > 1 else 0)
+        cells.append("state-query-between-computes")
     res = tebd.compute(nsteps, progress_type="silent")
+    if i % 2:
+        rec0 = np.array(res["dynamics"][0].states)[kmid]
+        if np.abs(mid0 - rec0).max() > 1e-10:
+            violations.append({
+                "what": "get_current_density_matrix(0) after compute(k) "
+                        "differs from the state recorded for step k",
+                "mechanism": "current-state-query", "detail": {}})
     texp = 0.25 + dt * np.arange(nsteps + 1)
     if not np.allclose(res["time"], texp, rtol=0, atol=1e-12):
         violations.append({"what": "time axis wrong", "mechanism": "times",
